@@ -103,26 +103,52 @@ def make_variants(text):
 
 
 def verify_feature_set(repo, verif, features, use_cache=True, vacuity=True, extra=(), tag=""):
-    """returns a dict: status in {ok, fail, undecided}, failures, stats ..."""
+    """returns a dict: status in {ok, fail, undecided}, failures, stats ...
+    A function that is outside the extraction rules, or whose extracted text Verus rejects, is retried with its contract
+    ASSUMED (external_body): `assumed_functions` lists them; the properties they serve are undecided, the rest stay decidable."""
     name = fs_name(features)
     out_dir = os.path.join(verif, "build", name)
     os.makedirs(out_dir, exist_ok=True)
-    res = {"features": sorted(features), "name": name}
-    t0 = time.time()
-    try:
-        g = Gen(repo, features, verif)
-        text = g.assemble()
-    except (Unsupported, LexError) as e:
-        res.update(status="undecided", reason="extraction: %s" % e, failures=[], labels={}, wall=time.time() - t0)
-        return res
-    key = hashlib.sha256((text + "|" + " ".join(extra) + "|" + str(vacuity)).encode()).hexdigest()[:24]
-    cache = os.path.join(verif, "build", "cache", key + ".json")
-    # serialise concurrent checks that need the same feature set (they share the generated files); the second one hits the cache
     import fcntl
     lock = open(os.path.join(out_dir, ".lock%s" % tag), "w")
     fcntl.flock(lock, fcntl.LOCK_EX)
     try:
-        return _verify_locked(g, text, res, key, cache, use_cache, vacuity, extra, tag, out_dir, t0)
+        assume, reasons = set(), {}
+        last = None
+        for attempt in range(5):
+            res = {"features": sorted(features), "name": name}
+            t0 = time.time()
+            try:
+                g = Gen(repo, features, verif)
+                g.assume = set(assume)
+                g.assume_reasons = dict(reasons)
+                text = g.assemble()
+            except (Unsupported, LexError) as e:
+                res.update(status="undecided", reason="extraction: %s" % e, failures=[], labels={}, wall=time.time() - t0)
+                return res
+            assume |= g.assume; reasons.update(g.assume_reasons)
+            key = hashlib.sha256((text + "|" + " ".join(extra) + "|" + str(vacuity)).encode()).hexdigest()[:24]
+            cache = os.path.join(verif, "build", "cache", key + ".json")
+            r = _verify_locked(g, text, res, key, cache, use_cache, vacuity, extra, tag, out_dir, t0)
+            r["assumed_functions"] = {k: reasons.get(k, "") for k in sorted(assume)}
+            last = r
+            # Verus rejected the text inside one extracted function: assume that function's contract and retry
+            new = set()
+            if r["status"] == "undecided" and r.get("hard_errors"):
+                franges = r.get("function_ranges", [])
+                for he in r["hard_errors"]:
+                    ln = he.get("line")
+                    best = None
+                    for a_, b_, nm in franges:
+                        if ln and a_ <= ln <= b_ and (best is None or (b_ - a_) < (best[1] - best[0])):
+                            best = (a_, b_, nm)
+                    if best and best[2] in g.fn_keys_with_body and best[2] not in assume:
+                        new.add(best[2])
+                        reasons[best[2]] = "verus rejected the extracted text: %s" % he.get("message", "")[:200]
+            if not new:
+                return r
+            assume |= new
+        return last
     finally:
         fcntl.flock(lock, fcntl.LOCK_UN)
         lock.close()
@@ -165,6 +191,7 @@ def _verify_locked(g, text, res, key, cache, use_cache, vacuity, extra, tag, out
         labels={str(k): v for k, v in labels.items()},
         label_functions={v: ([nm for a, b, nm in funcs if a <= k <= b] or ["(shim/glue)"])[0] for k, v in labels.items()},
         functions=[nm for _, _, nm in funcs],
+        function_ranges=[[a_, b_, nm] for a_, b_, nm in funcs],
         extraction=[{"function": r["function"], "file": r["file"], "rules": r["rules_applied"],
                      "sha": r["source_sha256"]} for r in g.report],
         generated_lines=len(lines), path=path, checker_cmd=" ".join(verus_cmd(path, extra)),
